@@ -188,7 +188,7 @@ func c20AddCase(out *emit.Out, scenario string, in c20Input) {
 		}
 		out.Add(emit.Case{Scenario: scenario, Trivial: len(in.Chunks) < 2 && len(in.Sizes) < 2, Input: in, Direct: direct,
 			Observed: map[string]interface{}{"hdr_err": hdrErr, "reads": obs},
-			Coq: fmt.Sprintf("DetectCase %s [%s] %d [%s]", coqChunks(in.Chunks), strings.Join(sz, ";"), hdrErr, strings.Join(res, ";"))})
+			Coq:      fmt.Sprintf("DetectCase %s [%s] %d [%s]", coqChunks(in.Chunks), strings.Join(sz, ";"), hdrErr, strings.Join(res, ";"))})
 	case "route":
 		code := 0
 		func() {
@@ -257,12 +257,12 @@ func c20AddCase(out *emit.Out, scenario string, in c20Input) {
 		}()
 		out.Add(emit.Case{Scenario: scenario, Trivial: false, Input: in, Direct: direct,
 			Observed: map[string]interface{}{"code": code},
-			Coq: fmt.Sprintf("RouteCase %s %s %s %d", emit.Bool(in.HasTLCP), emit.Bool(in.HasTLS), coqChunks(in.Chunks), code)})
+			Coq:      fmt.Sprintf("RouteCase %s %s %s %d", emit.Bool(in.HasTLCP), emit.Bool(in.HasTLS), coqChunks(in.Chunks), code)})
 	case "e2e":
 		okAdapter, okDirect := c20E2E(in, true), c20E2E(in, false)
 		out.Add(emit.Case{Scenario: scenario, Trivial: false, Input: in,
 			Observed: map[string]interface{}{"adapter_ok": okAdapter, "direct_ok": okDirect},
-			Coq: fmt.Sprintf("E2ECase %s %s", emit.Bool(okAdapter), emit.Bool(okDirect))})
+			Coq:      fmt.Sprintf("E2ECase %s %s", emit.Bool(okAdapter), emit.Bool(okDirect))})
 	}
 }
 
